@@ -97,6 +97,86 @@ type State struct {
 	// append: "" (decide here, forking the path), or the branch a forked state has to take
 	// when it re-executes the append it was forked at: "fresh"
 	appendMode string
+	// the write being checked against the frames (for entries decided from static types)
+	frameIns ssa.Instruction
+	frameT   types.Type
+}
+
+// uncheckedPanics: the function under verification is declared unchecked_panics (its contract
+// speaks about the runs that do not panic only).
+func (st *State) uncheckedPanics() bool {
+	c := st.frames[0].contract
+	if c != nil && c.UncheckedPanics {
+		st.res.Assumed["run-time panics of "+c.Pkg+"."+c.Name+" are not checked (unchecked_panics: its contract is about the runs that complete)"] = true
+		return true
+	}
+	return false
+}
+
+// typeWithin: t is elemT or the type of a (nested) field of the struct elemT, i.e. a location
+// of type t can lie inside an element of an array of elemT.
+func typeWithin(t, elemT types.Type) bool {
+	if types.Identical(t, elemT) {
+		return true
+	}
+	switch u := elemT.Underlying().(type) {
+	case *types.Struct:
+		for i := 0; i < u.NumFields(); i++ {
+			if typeWithin(t, u.Field(i).Type()) {
+				return true
+			}
+		}
+	case *types.Array:
+		return typeWithin(t, u.Elem())
+	}
+	return false
+}
+
+// mayWriteArrayOf: can the store ins write into (an element of) an array whose elements have
+// type elemT? Decided from the static shape of the address: an index into a slice or array of
+// another element type, or a pointer whose target type cannot lie inside an elemT, cannot.
+func mayWriteArrayOf(ins ssa.Instruction, elemT types.Type) bool {
+	s, ok := ins.(*ssa.Store)
+	if !ok {
+		return true
+	}
+	v := s.Addr
+	for {
+		switch x := v.(type) {
+		case *ssa.FieldAddr:
+			v = x.X
+			continue
+		case *ssa.IndexAddr:
+			var et types.Type
+			switch u := x.X.Type().Underlying().(type) {
+			case *types.Slice:
+				et = u.Elem()
+			case *types.Pointer:
+				if a, ok := u.Elem().Underlying().(*types.Array); ok {
+					et = a.Elem()
+				}
+			}
+			if et == nil {
+				return true
+			}
+			if types.Identical(et, elemT) {
+				return true
+			}
+			// an element of another array: it lies in an elemT array only if that array is itself
+			// inside an elemT (fixed-size array fields)
+			if p, ok := x.X.Type().Underlying().(*types.Pointer); ok {
+				return typeWithin(p.Elem(), elemT)
+			}
+			return false
+		case *ssa.Alloc:
+			return false
+		}
+		break
+	}
+	if p, ok := v.Type().Underlying().(*types.Pointer); ok {
+		return typeWithin(p.Elem(), elemT)
+	}
+	return true
 }
 
 func (st *State) setVis(rs *rangeState, t string) {
@@ -285,6 +365,10 @@ func (st *State) panicOb(ins ssa.Instruction, kind string, goal string, what str
 		if other != nil {
 			st.pendingForks = append(st.pendingForks, other)
 		}
+		st.assume(goal)
+		return
+	}
+	if st.uncheckedPanics() {
 		st.assume(goal)
 		return
 	}
@@ -902,7 +986,7 @@ func (e *Engine) Verify(fn *ssa.Function, c *Contract) *FuncResult {
 			for _, b := range fn.Blocks {
 				for _, ins := range b.Instrs {
 					if ci, isCall := ins.(ssa.CallInstruction); isCall {
-						if callee := ci.Common().StaticCallee(); callee != nil && shortName(callee) == name {
+						if callee := ci.Common().StaticCallee(); callee != nil && (shortName(callee) == name || (callee.Signature.Recv() == nil && callee.Parent() == nil && callee.Name() == name)) {
 							ok = true
 						} else if ci.Common().IsInvoke() && strings.HasSuffix(name, "."+ci.Common().Method.Name()) {
 							ok = true
@@ -1026,6 +1110,15 @@ func (e *Engine) Verify(fn *ssa.Function, c *Contract) *FuncResult {
 			break
 		}
 	}
+	if c != nil && len(res.Errors) == 0 {
+		// every `at X assert` clause has to have produced an obligation on some path (the static
+		// check above accepted `at Iface.Method assert` clauses that were then never looked up)
+		for _, name := range sortedKeys(c.AtAsserts) {
+			if !c.atUsed[name] {
+				res.Errors = append(res.Errors, fmt.Sprintf("contract has `at %s assert` but no path of %s produced an obligation for it", name, fnKey(fn)))
+			}
+		}
+	}
 	return res
 }
 
@@ -1061,7 +1154,11 @@ func (e *Engine) closureOfFreeVar(fn *ssa.Function, fv *ssa.FreeVar) *ssa.Functi
 	for _, r := range *al.Referrers() {
 		if s, ok := r.(*ssa.Store); ok && s.Addr == al {
 			n++
-			if mc, ok := s.Val.(*ssa.MakeClosure); ok {
+			val := s.Val
+			if ct, ok := val.(*ssa.ChangeType); ok {
+				val = ct.X
+			}
+			if mc, ok := val.(*ssa.MakeClosure); ok {
 				found = mc.Fn.(*ssa.Function)
 			}
 		}
